@@ -720,6 +720,36 @@ func runR62(c *Ctx) {
 			}
 		}
 	})
+	// ... or hands the buffer table to a helper that does (an extracted appendRow)
+	eachInstr(fn, func(in ssa.Instruction) {
+		call, ok := in.(*ssa.Call)
+		if !ok || call.Call.StaticCallee() == nil || call.Call.StaticCallee().Pkg != fn.Pkg {
+			return
+		}
+		appends := false
+		eachInstr(call.Call.StaticCallee(), func(i2 ssa.Instruction) {
+			if st, ok := i2.(*ssa.Store); ok {
+				if ia, ok := st.Addr.(*ssa.IndexAddr); ok && isSliceOfSlices(ia.X.Type()) {
+					if c2, ok := st.Val.(*ssa.Call); ok && builtinName(c2) == "append" {
+						appends = true
+					}
+				}
+			}
+		})
+		if !appends {
+			return
+		}
+		for _, a := range call.Call.Args {
+			if isSliceOfSlices(a.Type()) {
+				for _, li := range loopsOf(fn) {
+					if inLoop(li, call.Block()) {
+						sinks = append(sinks, call.Block())
+						return
+					}
+				}
+			}
+		}
+	})
 	// the row loop: driven by r.Next()
 	var start *ssa.BasicBlock
 	eachInstr(fn, func(in ssa.Instruction) {
